@@ -3,6 +3,7 @@ import XmppModel.Prelude.Xml
 import XmppModel.Model.Encoder
 import XmppModel.Model.SendGuard
 import XmppModel.Model.ValueForms
+import XmppModel.Model.Transport
 /-! Driver for C05 (see harness/c05 for the line protocol).
 
     tx <entry> <ns> <from|-> <startTok|-> <toks>   -> <status> <canonical wire tokens>
@@ -167,6 +168,16 @@ def handle (args : List String) : Option String :=
     match r.2 with
     | .wrote out => pure s!"{s1} ok {encToks (canon cfg.ns (r.1 ++ out))}"
     | .refused => pure s!"{s1} broken {encToks (canon cfg.ns r.1)}"
+  | ["wfault", _ns, _from, _entry, _start, _toks, _form, chunks, at_, n, kind, status, accepted, next] => do
+    -- relation: is the observation one a transport layer that hands every byte on exactly once
+    -- can show; the model of the code itself must be among those
+    let cs ← if chunks == "-" then some [] else mapM? (fun (x : String) => x.toNat?) (splitList chunks)
+    let at_ ← at_.toNat?
+    let n ← n.toNat?
+    let acc ← accepted.toNat?
+    let m := Transport.modelObs cs at_ n kind
+    if !Transport.admissibleObs cs at_ n kind m.1 m.2 (if m.1 == "ok" then "ok" else "err") then none
+    pure (if Transport.admissibleObs cs at_ n kind (if status == "ok" then "ok" else "err") acc (if next == "ok" then "ok" else "err") then "ok" else "bad")
   | ["flush", entry, form] => pure (showBool (flushesAtReturn entry form))
   | ["conc", n, order] => do
     let n ← n.toNat?
